@@ -437,6 +437,12 @@ def run(prop, tier):
     rep = Report(prop, tier, {"C03": "exploration", "C07": "fault_enumeration"}.get(prop, "model_checking"))
     mc(prop, tier, rep)
     traces = GEN[prop](tier, rng)
+    if prop in ("C03", "C07"):
+        import repotests
+        rd = repotests.record()     # the repository's own framer tests, recorded: buildPacket calls (C03), deliveries (C07)
+        grp = "build" if prop == "C03" else "framing"
+        traces += rd.get(grp, [])
+        repotests.note(rep, rd, grp)
     verdicts, st = validate_traces("FramingTrace", "FramingTrace.cfg", traces, timeout=3000)
     rep.add_tv(st, len(traces), sum(len(t["calls"]) for t in traces))
     byid = {t["id"]: t for t in traces}
